@@ -57,6 +57,17 @@ CHECKS["C08"] = dict(level="model_checking", engine="xplore",
    note="XXH64 in zmodel is cross-checked against twox-hash on every run and against libzstd through every checksummed model frame.",
    design="3/C08")
 
+CHECKS["C09"] = dict(level="exploration", engine="sweep",
+   technique="complete lattice / matrix / history enumeration against libzstd-with-dictionary and the zmodel executor",
+   text="Five dictionaries (three trained by libzstd's ZDICT on deterministic samples, two built by the model with chosen tables, offsets (5,9,13) and 64 bytes of content; all accepted by libzstd and parsed identically by the model). (1) libzstd frames over levels x windowLog {default,10,17} x dictID flag x 6 inputs: decoded by id / by force_dict to the input, refused with DictNotProvided{that id} without the dictionary, every frame also accepted by the strict walker with the model's parse of the dictionary. (2) Model frames whose first block is treeless, uses Repeat mode per table, and every repeat-offset code, so the dictionary's Huffman table, FSE tables and offsets ARE the starting state (1.9k frames, each validated by libzstd with the dictionary). (3) The complete seam lattice: output position 0..=8 x literal run {0,2} x reach into the dictionary 1..=len+1 x match length 3..=12/20 - matches inside the dictionary, ending at the seam, crossing it, overlapping; reach len+1 must be rejected. (4) Every history of 3/4 items over {frame with dictionary A, frame with dictionary B, plain frame, plain frame decodable only with leaked tables, plain frame decodable only with leaked content, unregistered id} on one decoder equals the outcome on fresh decoders.",
+   note="libzstd 1.5.7 defines valid dictionaries/frames; the rejection of offsets beyond dictionary+output is taken from the property (libzstd tolerates reading into the dictionary's entropy section, counted in the evidence). Nothing is claimed about reaching the dictionary after the window has slid.",
+   design="3/C09")
+CHECKS["C10"] = dict(level="fault_enumeration", engine="sweep",
+   technique="every truncation point x 8 front ends, every trailer byte, every target size, all multi-frame sequences up to length 3",
+   text="For ~170/420 frames (seeds, compressor output, libzstd frames): (a) frame ++ each of 261 trailers (empty, every byte value, magic prefixes, a second frame, a skippable frame) through counting readers incl. 1- and 5-byte-per-read readers: bytes taken == bytes_read_from_source == frame length, content exact, finished; (b) EVERY strict prefix through all 8 front ends: an error, never finished once the header was read, delivered bytes a prefix of the content; (c) every sequence of <= 3 items over {3 small frames, skippable frames of length 0 and 5 for all 16 magic values} with/without trailing garbage and truncated skippable frames through decode_all and decode_all_to_vec with EVERY target size 0..=total+1: exact total or TargetTooSmall, canaries around the target intact, vector length/prefix/capacity unchanged on failure.",
+   note="Truncation points of (b) are complete per frame; the frame set is a spread over the archetypes, not all frames.",
+   design="3/C10")
+
 NOT_YET = {}
 
 def main():
